@@ -430,7 +430,13 @@ func (c *c25State) step(i int, pool []string, kind string) bool {
 	vc := false
 	switch kind {
 	case "raw":
-		_ = c.exec(c.rawStmt)
+		before := c.lastRows
+		if err := c.exec(c.rawStmt); err == nil && strings.HasPrefix(c.rawStmt, "UPDATE t SET `") {
+			col := c.rawStmt[len("UPDATE t SET `"):]
+			if j := strings.IndexByte(col, '`'); j > 0 && c.sch.indexed(col[:j]) && c.changedSince(before) {
+				c.fUpdIdx = true
+			}
+		}
 	case "insert":
 		n := rapid.IntRange(1, 4).Draw(rt, lb+".n")
 		var rows []string
